@@ -22,6 +22,58 @@ pub use threadpool::{Scope, ThreadPool, current_num_threads, scope, without_curr
 #[cfg(test)]
 mod tests;
 
+/// Schedule-perturbation points for the verification harness (H5). Compiled only with
+/// `--cfg egglog_verif`; with the cfg off the crate is unchanged.
+#[cfg(egglog_verif)]
+pub mod verif_hooks {
+    use std::cell::Cell;
+    use std::sync::atomic::{AtomicU64, Ordering};
+
+    /// 0 = perturbation off (default). Any other value seeds the per-thread generators.
+    pub static PERTURB_SEED: AtomicU64 = AtomicU64::new(0);
+    /// Number of perturbation points passed (for the harness' evidence).
+    pub static PERTURB_HITS: AtomicU64 = AtomicU64::new(0);
+
+    thread_local! {
+        static STATE: Cell<u64> = const { Cell::new(0) };
+    }
+
+    /// Called at interesting points (between a load and the CAS that depends on it, before queue
+    /// pops, before the pending-counter decrement, around the token swap). Depending on a seeded
+    /// per-thread xorshift stream it returns at once, spins, yields or sleeps briefly.
+    #[inline]
+    pub fn perturb(site: u32) {
+        let seed = PERTURB_SEED.load(Ordering::Relaxed);
+        if seed == 0 {
+            return;
+        }
+        PERTURB_HITS.fetch_add(1, Ordering::Relaxed);
+        let r = STATE.with(|st| {
+            let mut x = st.get();
+            if x == 0 {
+                // derive a per-thread stream from the seed and the thread's stack address
+                let local = 0u8;
+                x = seed ^ ((&local as *const u8 as u64).wrapping_mul(0x9E37_79B9_7F4A_7C15)) | 1;
+            }
+            x ^= x << 13;
+            x ^= x >> 7;
+            x ^= x << 17;
+            st.set(x);
+            x.wrapping_add(site as u64)
+        });
+        match r % 16 {
+            0..=7 => {}
+            8..=11 => {
+                for _ in 0..(r >> 8) % 200 {
+                    std::hint::spin_loop();
+                }
+            }
+            12..=14 => std::thread::yield_now(),
+            _ => std::thread::sleep(std::time::Duration::from_micros((r >> 12) % 50)),
+        }
+    }
+}
+
 use std::{
     cell::UnsafeCell,
     mem,
@@ -100,6 +152,8 @@ impl<T> DerefMut for MutexWriter<'_, T> {
 
 impl<T> Drop for MutexWriter<'_, T> {
     fn drop(&mut self) {
+        #[cfg(egglog_verif)]
+        verif_hooks::perturb(23);
         self.lock
             .token
             .store(Arc::new(ReadToken::ReadOk(TriggerWhenDone::default())));
@@ -132,6 +186,8 @@ impl<T> ReadOptimizedLock<T> {
     pub fn read(&self) -> MutexReader<'_, T> {
         loop {
             let guard = self.token.load();
+            #[cfg(egglog_verif)]
+            verif_hooks::perturb(22);
             match guard.as_ref() {
                 ReadToken::ReadOk(..) => {
                     // This fence ensures that we see the outcome of any
@@ -162,6 +218,8 @@ impl<T> ReadOptimizedLock<T> {
                     let unblock_waiters = Arc::new(Notification::default());
                     let write_token = ReadToken::WriteOngoing(unblock_waiters.clone());
                     let readers_done = n.0.clone();
+                    #[cfg(egglog_verif)]
+                    verif_hooks::perturb(20);
                     let prev = self.token.compare_and_swap(&guard, Arc::new(write_token));
                     if !std::ptr::eq(prev.as_ref(), guard.as_ref()) {
                         // CAS failed, retry.
@@ -172,6 +230,8 @@ impl<T> ReadOptimizedLock<T> {
                     self.token.rcu(|x| x.clone());
                     // NB: this wait not be necessary... it isn't clear to me if
                     // this is documented behavior of the crate.
+                    #[cfg(egglog_verif)]
+                    verif_hooks::perturb(21);
                     readers_done.wait();
                     return MutexWriter {
                         lock: self,
